@@ -1066,7 +1066,8 @@ def judge(ctx, label, traces, env, meta):
         what = {
             "Named": "an emitted model element has no name in the writer's item -> name look-up",
             "Valid": "the chosen name is not a valid identifier of the target language",
-            "NotKeyword": "the chosen name is a keyword of the target language",
+            "NotKeyword": "the chosen name is a keyword of the target language (for a user type of a problem with several "
+                          "types also: PDDL's reserved root type `object`)",
             "Distinct": "two distinct elements of one namespace get the same name (under the language's case rule)",
             "Inverse": "get_item_named(get_pddl_name(item)) is not the item",
             "TextValid": "a name declared in the emitted text is not a valid identifier / is a keyword",
@@ -1345,7 +1346,8 @@ def selftest(ctx):
                        {"kind": "h", "id": 2, "lang": "anml", "mode": "fresh", "steps": [{"op": "write", "P": P}]}])
         if all("ops" in x and x["ops"][-1]["status"] == "ok" for x in r):
             its = r[0]["ops"][-1]["items"]
-            if sum(1 for it in its if it["kind"] == "fluent") >= 2 and any(it["kind"] == "param" for it in its):
+            if (sum(1 for it in its if it["kind"] == "fluent") >= 2 and any(it["kind"] == "param" for it in its)
+                    and sum(1 for it in its if it["kind"] == "type") >= 2):
                 good = r
                 break
     if good is None:
@@ -1378,6 +1380,10 @@ def selftest(ctx):
     variant(tp, 18, lambda o: o["text"][2]["names"].pop(), "TextAgrees")
     variant(tp, 19, lambda o: o["tback"][0].update(ok=False), "TextInverse")
     variant(tp, 20, lambda o: o["items"][fl[0]].update(fresh=cp("zz")), "HistoryIndependent")
+    ty = [i for i, it in enumerate(o["items"]) if it["kind"] == "type"]
+    variant(tp, 21, lambda o: o["items"][ty[0]].update(name=cp("object")), "NotKeyword")
+    variant(tp, 22, lambda o: o["text"][0]["names"].__setitem__(0, cp("object")), "TextValid")
+    variant(tp, 23, lambda o: (o["items"][ty[0]].update(name=cp("object")), o["text"][0]["names"].pop(0)), "TextAgrees")
     variant(ta, 30, lambda o: o["items"][0].update(name=cp("a-b")), "Valid")
     variant(ta, 31, lambda o: o["items"][0].update(name=cp("fluent")), "NotKeyword")
     variant(ta, 32, lambda o: o["items"][1].update(name=o["items"][0]["name"]), "Distinct")
